@@ -55,7 +55,26 @@ fn main() {
         std::process::exit(2);
     };
     let code = if let Some(path) = replay {
-        engine::replay(prop, &path)
+        // artifacts of the byte-level libFuzzer target carry the text itself
+        let text_doc = std::fs::read_to_string(&path).ok().and_then(|s| serde_json::from_str::<serde_json::Value>(&s).ok()).and_then(|d| d["text"].as_str().map(|t| t.to_string()));
+        if let Some(text) = text_doc {
+            match engine::guarded(|| cedar_verif::props::fuzz_text_oracles(&text)) {
+                Ok(None) => {
+                    println!("replay passed (no violation on this tree)");
+                    0
+                }
+                Ok(Some((sig, msg))) => {
+                    println!("VIOLATION property={} replay={}\n  signature: {sig}\n  {msg}", prop.id, path);
+                    1
+                }
+                Err((loc, msg)) => {
+                    println!("VIOLATION property={} replay={}\n  signature: panic:{loc}\n  {msg}", prop.id, path);
+                    1
+                }
+            }
+        } else {
+            engine::replay(prop, &path)
+        }
     } else {
         if only_sub.is_some() || cases.is_some() {
             write_evidence = false;
